@@ -59,6 +59,7 @@ class Ctx:
         cls.strict = []
         cls.clips = []
         cls.guards = []
+        cls.null_selects = []        # (condition of a select that holds on a null set only, branch taken there, other branch)
         cls.index_obl = []
         cls.hint_obl = []
         cls.exp_args = []
@@ -380,6 +381,15 @@ def swhere(c, a, b):
         return Sym(a.c, d=d)
     t = z3.If(c.e, a.e, b.e)
     Ctx.guards.append((t, c.e))
+    # a select whose condition is an EQUALITY between real terms picks its first branch on a null set only: autodiff then
+    # differentiates that branch at points where the function around them is the other one (C05 obligation)
+    ce = c.e
+    if z3.is_eq(ce) and ce.arg(0).sort() == R:
+        Ctx.null_selects.append((ce, a.e, b.e))
+    elif (z3.is_not(ce) and z3.is_eq(ce.arg(0)) and ce.arg(0).arg(0).sort() == R):
+        Ctx.null_selects.append((ce.arg(0), b.e, a.e))
+    elif z3.is_distinct(ce) and ce.num_args() == 2 and ce.arg(0).sort() == R:
+        Ctx.null_selects.append((ce.arg(0) == ce.arg(1), b.e, a.e))
     return Sym(t, d=d)
 
 
@@ -1242,6 +1252,21 @@ def scatter_add(operand, scatter_indices, updates, dimension_numbers, **kw):
     return arr(operand).at[idx[:, 0]].add(updates)
 
 
+def scatter(operand, scatter_indices, updates, dimension_numbers, **kw):
+    """lax.scatter (overwrite): with repeated indices the LAST update wins (what XLA:CPU does; jax documents the result as
+    implementation-defined - a contract that needs accumulation is refuted by any of the possible results)"""
+    inspect.signature(_real_jax.lax.scatter).bind(operand, scatter_indices, updates, dimension_numbers, **kw)
+    Ctx.api_calls["scatter"] = Ctx.api_calls.get("scatter", 0) + 1
+    if dimension_numbers.k != dict(update_window_dims=(), inserted_window_dims=(0,), scatter_dims_to_operand_dims=(0,)):
+        raise Unsupported("scatter dimension numbers other than the 1-d pattern")
+    idx = np.asarray(_concrete(scatter_indices))
+    out = arr(operand)
+    upd = arr(updates)
+    for k, i in enumerate(idx[:, 0]):
+        out = out.at[int(i)].set(upd[k])
+    return out
+
+
 def tree_map(f, tree, *rest, **k):
     if isinstance(tree, dict):
         return {key: tree_map(f, tree[key], *[r[key] for r in rest]) for key in tree}
@@ -1293,7 +1318,7 @@ jnp = _ns(
     ndarray=object, pi=Fraction(314159265358979323846, 10**20), inf=float("inf"), nan=float("nan"),
     float64=np.float64, float32=np.float32, int32=np.int32, int64=np.int64, bool_=np.bool_,
 )
-lax = _ns("lax", fori_loop=fori_loop, scatter_add=scatter_add, ScatterDimensionNumbers=ScatterDimensionNumbers,
+lax = _ns("lax", fori_loop=fori_loop, scatter_add=scatter_add, scatter=scatter, ScatterDimensionNumbers=ScatterDimensionNumbers,
           scan=lax_scan)
 tree_util = _ns("tree_util", tree_map=tree_map)
 nn = _ns("jax.nn", sigmoid=nn_sigmoid, softplus=nn_softplus)
@@ -1302,11 +1327,11 @@ jax = _ns("jax", numpy=jnp, lax=lax, vmap=vmap, checkpoint=_checkpoint, tree_uti
 
 DEFAULT_OVERRIDES = {
     "pi": Sym(z3.Real("PI")),        # math.pi is treated as the real number pi
-    "jnp": jnp, "jax": jax, "lax": lax, "vmap": vmap, "scatter_add": scatter_add,
+    "jnp": jnp, "jax": jax, "lax": lax, "vmap": vmap, "scatter_add": scatter_add, "scatter": scatter,
     "ScatterDimensionNumbers": ScatterDimensionNumbers, "fori_loop": fori_loop,
 }
 
-PRIMITIVE_MODELS = sorted(list(_MODELS) + ["scatter_add", "tree_map", "checkpoint(identity)", "lax.scan"])
+PRIMITIVE_MODELS = sorted(list(_MODELS) + ["scatter_add", "scatter", "tree_map", "checkpoint(identity)", "lax.scan"])
 
 
 # ----------------------------------------------------------------------------------------------
